@@ -82,6 +82,37 @@ fn main() {
             };
             let hist = parse_history(&arg(&args, "--history").unwrap_or_default()).expect("history");
             let (groups, probes) = props::groups_of(&prop);
+            if let Some(vname) = arg(&args, "--variant") {
+                // C17: reference vs one alternative entry point
+                let variant = props::c17_variants().into_iter().find(|v| v.name == vname).expect("variant");
+                let space = Space {
+                    variants: vec![variant],
+                    prop: &prop,
+                    alphabet: Vec::new(),
+                    depth: 0,
+                    configs: vec![entry],
+                    params: vec![params],
+                    groups,
+                    probes: false,
+                    fault: FaultMode::None,
+                    deadline: Instant::now() + Duration::from_secs(60),
+                    threads: 1,
+                    nontrivial: |_, _| true,
+                    nontrivial_rule: "",
+                    max_violations: 1,
+                    floor: 0,
+                };
+                let reference = run_history_ex(&entry, &hist, &params, groups, true, false, true);
+                let counters = Counters::default();
+                let viols = std::sync::Mutex::new(Vec::new());
+                let stop = std::sync::atomic::AtomicBool::new(false);
+                lockstep(&space, &entry, &params, &hist, &reference, &counters, &viols, &stop);
+                match viols.into_inner().unwrap().first() {
+                    Some(v) => println!("REPLAY VIOLATION step=0 msg={}", v.msg),
+                    None => println!("REPLAY OK"),
+                }
+                return;
+            }
             // all-steps checking first; if silent, the exploration's own mode (oracles after the last op + probes)
             let mut out = run_history(&entry, &hist, &params, groups, false, probes);
             if out.viol.is_none() && out.disabled_at.is_none() {
